@@ -178,6 +178,21 @@ func (r *Run) finish() {
 	}
 	solveStart := time.Now()
 	discharge(append(append(append([]*Oblig{}, r.Obls...), r.Covers...), r.SiteCovers...), dir, timeout, all)
+	// second chance: an obligation (or reachability check) the solvers gave up on
+	// within the tier's limit is asked again with four times the limit, so that a
+	// loaded machine does not turn a slow proof into an alarm
+	var again []*Oblig
+	for _, o := range append(append([]*Oblig{}, r.Obls...), r.Covers...) {
+		if (o.Status == "unknown" || o.Status == "timeout") && !o.Search && o.Kind != "table" {
+			again = append(again, o)
+		}
+	}
+	if len(again) > 0 && len(again) <= 24 {
+		discharge(again, dir, timeout*4, all)
+		for _, o := range again {
+			fmt.Printf("RETRIED %s with a %ds limit: %s\n", o.Name, timeout*4, o.Status)
+		}
+	}
 	solveSecs := time.Since(solveStart).Seconds()
 
 	expect, haveExpect := r.loadExpect()
